@@ -71,6 +71,9 @@ type Case struct {
 	// LateGlobals: the description is loaded without its top-level consumes/produces lists; the application sets them on
 	// the loaded document (doc.Spec()) before it builds the API from it
 	LateGlobals bool `json:"lateGlobals,omitempty"`
+	// EarlyContext: the application registers its operation handlers, creates the middleware Context, and only then
+	// registers media types and authenticators (then validates, then asks the Context for its handler) (r6)
+	EarlyContext bool `json:"earlyContext,omitempty"`
 }
 
 const jsonMime = "application/json"
@@ -376,10 +379,24 @@ func Check(c Case) *kit.Violation {
 			revalidate = false
 		}
 	}
+	var early *middleware.Context
+	registerOps := func() {
+		for _, o := range c.RegOps {
+			key := opKey(o.Method, o.Path)
+			api.RegisterOperation(o.Method, o.Path, runtime.OperationHandlerFunc(func(interface{}) (interface{}, error) {
+				log.handler = append(log.handler, key)
+				return M{"ok": true}, nil
+			}))
+		}
+	}
 	if v := kit.Guard("NewAPI/Register*/Validate", func() {
 		api = untyped.NewAPI(doc)
 		if !c.JSONDefaults {
 			api.WithoutJSONDefaults()
+		}
+		if c.EarlyContext {
+			registerOps()
+			early = middleware.NewContext(doc, api, nil)
 		}
 		for _, m := range c.RegConsumers {
 			m := m
@@ -395,12 +412,8 @@ func Check(c Case) *kit.Violation {
 				return json.NewEncoder(w).Encode(v)
 			}))
 		}
-		for _, o := range c.RegOps {
-			key := opKey(o.Method, o.Path)
-			api.RegisterOperation(o.Method, o.Path, runtime.OperationHandlerFunc(func(interface{}) (interface{}, error) {
-				log.handler = append(log.handler, key)
-				return M{"ok": true}, nil
-			}))
+		if !c.EarlyContext {
+			registerOps()
 		}
 		for _, a := range c.RegAuth {
 			a := a
@@ -474,7 +487,7 @@ func Check(c Case) *kit.Violation {
 	if !c.Restricted() {
 		return nil
 	}
-	return c.serve(doc, api, log)
+	return c.serve(doc, api, log, early)
 }
 
 // Plan of the serving part: which requests are sent to which operation.
@@ -549,9 +562,13 @@ func demanded(s Sec) []string {
 	return nil
 }
 
-func (c Case) serve(doc *loads.Document, api *untyped.API, log *calls) *kit.Violation {
+func (c Case) serve(doc *loads.Document, api *untyped.API, log *calls, early *middleware.Context) *kit.Violation {
 	var h http.Handler
 	if v := kit.Guard("NewContext/RoutesHandler", func() {
+		if early != nil {
+			h = early.RoutesHandler(nil)
+			return
+		}
 		h = middleware.NewContext(doc, api, nil).RoutesHandler(nil)
 	}); v != nil {
 		return kit.Failf("%s\n%s", v.Msg, c.brief())
